@@ -205,6 +205,14 @@ def parseSeparated (n locale content : Nat) (bs : Bytes) : Option (Block × Byte
         some ({ numRecords := n, locale := locale, content := content,
                 recs := mkRecs (decodeDeltas deltas) ckeys (List.replicate n none) }, r2)
 
+/-- one interleaved V1 record: 16-byte content key, then the 64-bit name hash -/
+def rdCkHash (b : Bytes) : Option ((Bytes × Nat) × Bytes) :=
+  match takeN 16 b with
+  | none => none
+  | some (ck, r) => match rd64le r with
+    | none => none
+    | some (h, r') => some ((ck, h), r')
+
 /-- `RootBlock::parse` -/
 def Block.parse (v : Version) (bs : Bytes) : Option (Block × Bytes) :=
   match v with
@@ -221,11 +229,7 @@ def Block.parse (v : Version) (bs : Bytes) : Option (Block × Bytes) :=
             match readMany (rd32 true) n r3 with
             | none => none
             | some (deltas, r4) =>
-              match readMany (fun b => match takeN 16 b with
-                  | none => none
-                  | some (ck, r) => match rd64le r with
-                    | none => none
-                    | some (h, r') => some ((ck, h), r')) n r4 with
+              match readMany rdCkHash n r4 with
               | none => none
               | some (pairs, r5) =>
                 some ({ numRecords := n, locale := locale, content := content,
